@@ -18,7 +18,14 @@ EITHER zones (left open by the docs, therefore not asserted):
     _check_trim_conditions refuses only some of these, the rest produce out-of-range coordinates; skipped;
   * split_edges / decapitate: ids of the new nodes are interchangeable (one per intersecting edge, any order);
     whether these two and extend_haplotypes add a provenance row is open (existing rows must survive);
-  * extend_haplotypes rewrites and squashes edges, so edge metadata is not compared there;
+  * extend_haplotypes rewrites and squashes edges, so edge metadata is not compared there; the docstring's
+    "edges whose child node is a sample are not modified" is read as "sample nodes are never extended" (the
+    parent of a sample does change when an ancestor is inserted above it), so no per-sample edge check;
+  * extend_haplotypes on inputs with a mutation on a non-sample node that is not part of the marginal tree at
+    its site: the operation inserts exactly such absent nodes into the tree and the mutation becomes visible
+    (genotype changes; witness in drop_detached_mutations).  Reported as a finding; such mutations are removed
+    from the extend workload and counted under either:extend-detached-mutations-dropped;
+  * extend_haplotypes: a mutation whose time equals the time of an inserted node may sit on either side of it;
   * which exception class reports a refused argument (LibraryError / ValueError / TypeError family).
 """
 import math
@@ -975,7 +982,8 @@ def run_case(case, ctx):
     ctx.sig(m.signature(), nontrivial=len(m.edges) > 0)
     if case["k"] < 2:
         ctx.sample({"case": case, "model": m.to_json()})
-    for _ in range(3):
+    thorough = case.get("tier") == "thorough"
+    for _ in range(6 if thorough else 3):
         check_intervals_op(ctx, m, rng, "keep_intervals")
         check_intervals_op(ctx, m, rng, "delete_intervals")
     check_bad_intervals(ctx, m, rng)
@@ -993,9 +1001,9 @@ def run_case(case, ctx):
         if m2.edges and valid_mutation_times(m2) and loads(m2):
             for op in ("ltrim", "rtrim", "trim"):
                 check_trim(ctx, m2, rng, op)
-    for _ in range(2):
+    for _ in range(4 if thorough else 2):
         check_delete_sites(ctx, m, rng)
-    for t, how in cutoff_times(rng, m)[:5]:
+    for t, how in cutoff_times(rng, m)[:(12 if thorough else 5)]:
         check_split_edges(ctx, m, rng, t, how)
         check_decapitate(ctx, m, rng, t, how)
         check_delete_older(ctx, m, rng, t, how)
@@ -1018,7 +1026,10 @@ def drop_detached_mutations(m):
     its site (no parent, no child there) is invisible to every sample; extend_haplotypes may pull exactly such
     a node into that tree (it only inserts nodes absent from it), which makes the mutation visible.  The
     docstring does not exclude such inputs but the operation cannot honour 'genotypes unchanged' on them, so
-    they are removed from the workload (counted)."""
+    they are removed from the workload (counted).
+    Witness (L=10): nodes 0 (sample, t=0), 1 (t=2), 2 (t=1); edges [0,5) 2->0, [0,5) 1->2, [5,10) 1->0; site at 7
+    'A' with a mutation on node 2 ('T', time 1.5): haplotype of sample 0 is 'A' before and 'T' after
+    extend_haplotypes()."""
     keep = []
     for k, mu in enumerate(m.mutations):
         f = forest(m, m.sites[mu[0]][0])
